@@ -383,13 +383,36 @@ def _controlling_conditions(f, bname):
             if rt != rf:
                 c = f.inst(t.ops[0])
                 pol = rt
-                while c is not None and c.op == "xor" and c.ty == "i1":
-                    c = f.inst(c.ops[0])
-                    pol = not pol
-                if c is not None and c.op == "icmp":
-                    out.append((c, pol))
+                out.extend(_expand_bool(f, c, pol, 0))
         cur = par
     return out
+
+
+def _expand_bool(f, c, pol, depth):
+    """the comparisons that hold when the i1 value c has the truth value pol: c itself when it is a comparison; through `!x', through a
+    truth value materialised as an integer and tested again (`int ok = a && b; if (ok)', an inlined predicate function), and through the
+    phi of a short-circuit `&&' (when true) / `||' (when false)"""
+    while c is not None and c.op == "xor" and c.ty == "i1":
+        c = f.inst(c.ops[0])
+        pol = not pol
+    if c is None or depth > 4:
+        return []
+    if c.op == "icmp" and c.d["pred"] in ("eq", "ne") and const_int(c.ops[1]) == 0:
+        x = f.inst(strip_int_casts(f, c.ops[0]))
+        if x is not None and x.ty == "i1" and x.op in ("icmp", "phi", "xor", "select", "and", "or"):
+            return _expand_bool(f, x, pol if c.d["pred"] == "ne" else not pol, depth + 1)
+    if c.op == "icmp":
+        return [(c, pol)]
+    if c.op == "phi" and c.ty == "i1":
+        rest = [(v, pb) for (v, pb) in c.d["incoming"] if const_int(v) is None]
+        consts = [const_int(v) for (v, pb) in c.d["incoming"] if const_int(v) is not None]
+        # a && b: false from the blocks where an operand failed, the last operand's value otherwise
+        if len(rest) == 1 and consts and all((k != 0) == (not pol) for k in consts):
+            v, pb = rest[0]
+            here = set((x.id, p_) for (x, p_) in _controlling_conditions(f, c.block.name))
+            extra = [(x, p_) for (x, p_) in _controlling_conditions(f, pb) if (x.id, p_) not in here]
+            return _expand_bool(f, f.inst(v), pol, depth + 1) + extra
+    return []
 
 
 def rule_token_intake(ctx, rep, config="c-lib"):
